@@ -12,6 +12,7 @@ succeeds (or answers not-found on all of them).
 -/
 import SwV.Model.C40
 import SwV.Spec.C40
+import SwV.Gen.C40
 namespace SwV.Props.C40
 open SwV.Model.C33 (Codec) 
 open SwV.Model.C40 SwV.Spec.C40
@@ -227,6 +228,18 @@ theorem unchanged_answer_witness :
     let q2 : Req := { reqPlain with name := "g".toList }
     (upload symCodec sniffText w1 1 q2).2 = .unchanged ∧
       ((upload symCodec sniffText w1 1 q2).1.nodes.map fun nd => (nd.get 1).map (·.name)) = [some "f".toList, some "g".toList] := by
+  decide
+
+/-! ## bridges: the modelled functions are pinned to the source text they were read from (regenerated on every check) -/
+
+/-- an edit of any of these functions breaks this obligation -/
+theorem bridge_source_pins :
+    SwV.Gen.C40.src_ReplicatedWrite = "5c851f7c671e10ff" ∧
+    SwV.Gen.C40.src_ReplicatedDelete = "a06f670318c08a41" ∧
+    SwV.Gen.C40.src_distributedOperation = "a5f59e07d1398366" ∧
+    SwV.Gen.C40.src_getWritableRemoteReplications = "c0bf1608c1f1ad89" ∧
+    SwV.Gen.C40.src_CreateNeedleFromRequest = "a3abd6a61c4a5dff" ∧
+    SwV.Gen.C40.src_isFileUnchanged = "9b0c84174250e52d" := by
   decide
 
 end SwV.Props.C40
